@@ -29,13 +29,18 @@ for f in a.filters: cmd += ['--harness', f]
 t = time.time()
 p = subprocess.run(cmd, cwd=s, env=driver.KANI_ENV, stdout=subprocess.PIPE, stderr=subprocess.STDOUT, text=True)
 if not os.path.exists(out):
-    print(p.stdout[-8000:]); sys.exit(2)
+    import re as _re
+    errs = _re.findall(r'(?ms)^error.*?(?=^(?:error|warning)|\Z)', p.stdout)
+    print('\n'.join(e[:900] for e in errs[:6]) or p.stdout[-5000:]); sys.exit(2)
 d = json.load(open(out))
 st = {c['harness_id']: (c.get('cbmc_stats') or {}) for c in d.get('cbmc', [])}
 for r in d['verification_results']['results']:
     bad = [c for c in r['checks'] if c['status'] not in ('Success', 'Unreachable', 'Satisfied')]
     cs = st.get(r['harness_id'], {})
     print(f"{r['status']:8} {r['harness_id']}  {r.get('duration_ms',0)/1000:.1f}s checks={len(r['checks'])} symex={cs.get('runtime_symex_s')} ssa={cs.get('runtime_convert_ssa_s')} solver={cs.get('runtime_solver_s')} vccs={cs.get('vccs_remaining')} size={cs.get('size_program_expression')}")
+    bad.sort(key=lambda c: 0 if c['status']=='Failure' else 1)
+    from collections import Counter
+    if bad: print('     ', Counter(c['status'] for c in bad))
     for c in bad[:12]:
         print('     ', c['status'], '|', c['description'], '|', c.get('function'), (c.get('location') or {}).get('file','').replace(s,''), (c.get('location') or {}).get('line'))
 if a.playback:
